@@ -1,5 +1,8 @@
-(* C06 — operator== means same vertices, same edges, same labels - and nothing else.  Statements only; proofs in Equality.v. *)
-From BG Require Import Base DirectedModel DirectedProofs DirectedSpec DirectedRefine Equality.
+(* C06 — operator== means same vertices, same edges, same labels - and nothing else.  Statements only; proofs in Equality.v (directed labelled class)
+   and EqualityMore.v (undirected labelled class, both multigraphs, both weighted graphs - all eight classes use the same base-class operator==). *)
+From BG Require Import Base DirectedModel DirectedProofs DirectedIter DirectedUsers DirectedSpec DirectedRefine DirectedObs Equality
+  UndirectedModel UndirectedProofs UndirectedIter UndirectedSpec UndirectedRefine UndirectedObs
+  MultiModel WeightedModel MultiSpec Totals MultiRefine WeightedRefine UTotals UMultiRefine UWeightedRefine Instances EqualityMore.
 Local Open Scope Z_scope.
 
 (* On any two graphs satisfying the invariant (with a label store that is a map), the model of operator== - sizes, cached edge numbers,
@@ -28,6 +31,61 @@ Theorem C06_refl_sym : forall (L : Type) (leqb : L -> L -> bool) hs (g h : @dgra
   ((forall x y, leqb x y = leqb y x) -> graph_eqb leqb g h = graph_eqb leqb h g).
 Proof. intros L leqb hs g h Ig Ih Kg Kh. split; [intros R; apply (graph_eqb_refl leqb hs g R Ig Kg)|intros S; apply (graph_eqb_sym leqb hs g h S Ig Ih Kg Kh)]. Qed.
 Print Assumptions C06_refl_sym.
+
+(* ---- the other classes ---- *)
+(* undirected labelled class: the verdict on any two states satisfying the symmetric invariant; KeysOK (the label store is a map) is kept by
+   every call; for ANY two valid histories the verdict is "same graph", and equals the executable spec-side verdict spec_eqb that the
+   differential test computes; multigraphs and weighted graphs (und selects the undirected class): the verdict is equality of the spec maps
+   (same size, same support, same multiplicity / weight on every pair) - the running totals are not compared by operator== and are equal anyway *)
+Theorem C06_undirected_eq : forall (L : Type) (leqb : L -> L -> bool) hs (g h : @dgraph L),
+  InvU hs g -> InvU hs h -> KeysOK g -> KeysOK h ->
+  exists b, graph_eqb leqb g h = Val b /\
+    (b = true <-> size g = size h /\ (forall i j, In j (nb g i) <-> In j (nb h i)) /\
+                  (forall e v v', lfind e (labels g) = Some v -> lfind e (labels h) = Some v' -> leqb v v' = true)).
+Proof. exact EqualityMore.C06_undirected_eq. Qed.
+Print Assumptions C06_undirected_eq.
+Theorem C06_undirected_keys : forall (L : Type) hs V (g : @dgraph L) (ops : list (@uop L)), KeysOK g -> KeysOK (fst (urun hs V g ops)).
+Proof. exact EqualityMore.C06_undirected_keys. Qed.
+Print Assumptions C06_undirected_keys.
+Theorem C06_undirected_histories : forall (L : Type) (leqb : L -> L -> bool) hs (n m : nat) (opsA opsB : list (@uop L)),
+  uvalid_history (s_init n) opsA = true -> uvalid_history (s_init m) opsB = true ->
+  exists g h b, urun hs repaired (init n) opsA = (g, Done) /\ urun hs repaired (init m) opsB = (h, Done) /\
+    graph_eqb leqb g h = Val b /\
+    (b = true <-> spec_same leqb hs (uspec_run (s_init n) opsA) (uspec_run (s_init m) opsB)) /\
+    ((forall x y, leqb x y = leqb y x) -> b = spec_eqb (lveq hs leqb) (uspec_run (s_init n) opsA) (uspec_run (s_init m) opsB)).
+Proof. exact EqualityMore.C06_undirected_histories. Qed.
+Print Assumptions C06_undirected_histories.
+Theorem C06_directed_histories_eqb : forall (L : Type) (leqb : L -> L -> bool) hs (n m : nat) (opsA opsB : list (@dop L)),
+  (forall x y, leqb x y = leqb y x) -> valid_history (s_init n) opsA = true -> valid_history (s_init m) opsB = true ->
+  exists g h, run hs repaired (init n) opsA = (g, Done) /\ run hs repaired (init m) opsB = (h, Done) /\
+    graph_eqb leqb g h = Val (spec_eqb (lveq hs leqb) (spec_run (s_init n) opsA) (spec_run (s_init m) opsB)).
+Proof. exact EqualityMore.C06_directed_histories_eqb. Qed.
+Print Assumptions C06_directed_histories_eqb.
+Theorem C06_multigraph_histories : forall (und : bool) (n m : nat) (opsA opsB : list mop),
+  m_valid_of und (s_init n) opsA = true -> m_valid_of und (s_init m) opsB = true ->
+  exists m1 m2, m_run_of und (dm_init n) opsA = (m1, Done) /\ m_run_of und (dm_init m) opsB = (m2, Done) /\
+    let a1 := m_spec_of und (s_init n) opsA in let a2 := m_spec_of und (s_init m) opsB in
+    graph_eqb Z.eqb (mg m1) (mg m2) = Val (spec_eqb Z.eqb a1 a2) /\
+    (spec_eqb Z.eqb a1 a2 = true <-> sn a1 = sn a2 /\ forall e, lfind e (se a1) = lfind e (se a2)) /\
+    (spec_eqb Z.eqb a1 a2 = true -> mtot m1 = mtot m2).
+Proof. exact EqualityMore.C06_multigraph_histories. Qed.
+Print Assumptions C06_multigraph_histories.
+Theorem C06_weighted_histories : forall (und : bool) (n m : nat) (opsA opsB : list wop),
+  w_valid_of und (s_init n) opsA = true -> w_valid_of und (s_init m) opsB = true ->
+  exists m1 m2, w_run_of und (dm_init n) opsA = (m1, Done) /\ w_run_of und (dm_init m) opsB = (m2, Done) /\
+    let a1 := w_spec_of und (s_init n) opsA in let a2 := w_spec_of und (s_init m) opsB in
+    graph_eqb Z.eqb (mg m1) (mg m2) = Val (spec_eqb Z.eqb a1 a2) /\
+    (spec_eqb Z.eqb a1 a2 = true <-> sn a1 = sn a2 /\ forall e, lfind e (se a1) = lfind e (se a2)) /\
+    (spec_eqb Z.eqb a1 a2 = true -> mtot m1 = mtot m2).
+Proof. exact EqualityMore.C06_weighted_histories. Qed.
+Print Assumptions C06_weighted_histories.
+Theorem C06_multi_weighted_states : forall (m1 m2 : mgraph), (TInv m1 /\ TInv m2) \/ (UTInv m1 /\ UTInv m2) ->
+  exists b, graph_eqb Z.eqb (mg m1) (mg m2) = Val b /\
+    (b = true <-> size (mg m1) = size (mg m2) /\ (forall i j, In j (nb (mg m1) i) <-> In j (nb (mg m2) i)) /\
+                  forall e, lfind e (labels (mg m1)) = lfind e (labels (mg m2))) /\
+    (b = true -> mtot m1 = mtot m2).
+Proof. exact EqualityMore.C06_multi_weighted_states. Qed.
+Print Assumptions C06_multi_weighted_states.
 
 (* the pinned commit: a cleared graph compared unequal to a fresh one because of its stale labels *)
 Example C06_refuted_on_pinned :
